@@ -612,6 +612,124 @@ impl Bridge for Fragile {
     }
 }
 
+/// deduplicated strings inside records whose headers carry removed-field names (themselves
+/// deduplicated strings of the stream); same-version reading only
+#[derive(BinaryCodec)]
+#[evolution(FieldRemoved("legacy"), FieldAdded("third", Dedup(desert::DeduplicatedString(String::new()))), FieldRemoved("older"), FieldMadeTransient("cache"))]
+pub struct Tagged {
+    pub first: Dedup,
+    pub second: Dedup,
+    pub third: Dedup,
+    #[transient(0u8)]
+    pub cache: u8,
+}
+impl Bridge for Tagged {
+    fn ty() -> Ty {
+        Ty::Adt("Tagged".into())
+    }
+    fn register(reg: &mut Registry) {
+        reg.insert(AdtDef::Record(RecordDef {
+            name: "Tagged".into(),
+            option_aware: true,
+            steps: vec![
+                Step::Removed("legacy".into()),
+                Step::Added("third".into()),
+                Step::Removed("older".into()),
+                Step::MadeTransient("cache".into()),
+            ],
+            fields: vec![
+                field("first", Ty::DedupStr),
+                field("second", Ty::DedupStr),
+                FieldDef { name: "third".into(), ty: Ty::DedupStr, transient: None, default: Some(Val::str("")) },
+                FieldDef { name: "cache".into(), ty: Ty::U8, transient: Some(Val::U(0)), default: None },
+            ],
+        }));
+    }
+    fn to_val(&self) -> Val {
+        Val::Record(vec![self.first.to_val(), self.second.to_val(), self.third.to_val(), self.cache.to_val()])
+    }
+    fn from_val(v: &Val) -> Self {
+        let f = v.items();
+        Tagged { first: Bridge::from_val(&f[0]), second: Bridge::from_val(&f[1]), third: Bridge::from_val(&f[2]), cache: Bridge::from_val(&f[3]) }
+    }
+}
+
+/// a field made optional, another one removed, then the first one removed: the header names the
+/// first field before the second one
+#[derive(BinaryCodec)]
+#[evolution(FieldMadeOptional("first"), FieldRemoved("second"), FieldRemoved("first"))]
+pub struct Tagged2 {
+    pub a: Dedup,
+    pub b: Dedup,
+    pub c: Vec<Dedup>,
+}
+impl Bridge for Tagged2 {
+    fn ty() -> Ty {
+        Ty::Adt("Tagged2".into())
+    }
+    fn register(reg: &mut Registry) {
+        reg.insert(AdtDef::Record(RecordDef {
+            name: "Tagged2".into(),
+            option_aware: true,
+            steps: vec![Step::MadeOptional("first".into()), Step::Removed("second".into()), Step::Removed("first".into())],
+            fields: vec![field("a", Ty::DedupStr), field("b", Ty::DedupStr), field("c", Ty::vec(Ty::DedupStr))],
+        }));
+    }
+    fn to_val(&self) -> Val {
+        Val::Record(vec![self.a.to_val(), self.b.to_val(), self.c.to_val()])
+    }
+    fn from_val(v: &Val) -> Self {
+        let f = v.items();
+        Tagged2 { a: Bridge::from_val(&f[0]), b: Bridge::from_val(&f[1]), c: Bridge::from_val(&f[2]) }
+    }
+}
+
+/// explicit discriminants do not influence constructor indices
+#[derive(BinaryCodec)]
+pub enum Priority {
+    Low = 1,
+    Normal = 2,
+    High = 7,
+    Critical = 4,
+}
+impl Bridge for Priority {
+    fn ty() -> Ty {
+        Ty::Adt("Priority".into())
+    }
+    fn register(reg: &mut Registry) {
+        let ctor = |name: &str| CtorDef {
+            name: name.into(),
+            transient: false,
+            record: RecordDef { name: name.into(), option_aware: true, steps: vec![], fields: vec![] },
+        };
+        reg.insert(AdtDef::Enum(EnumDef {
+            name: "Priority".into(),
+            sorted: false,
+            ctors: vec![ctor("Low"), ctor("Normal"), ctor("High"), ctor("Critical")],
+        }));
+    }
+    fn to_val(&self) -> Val {
+        Val::Enum(
+            match self {
+                Priority::Low => 0,
+                Priority::Normal => 1,
+                Priority::High => 2,
+                Priority::Critical => 3,
+            },
+            vec![],
+        )
+    }
+    fn from_val(v: &Val) -> Self {
+        match v {
+            Val::Enum(0, _) => Priority::Low,
+            Val::Enum(1, _) => Priority::Normal,
+            Val::Enum(2, _) => Priority::High,
+            Val::Enum(3, _) => Priority::Critical,
+            o => panic!("bridge: {o:?}"),
+        }
+    }
+}
+
 /// a client codec that stores its bytes as a compressed frame
 pub struct Zipped(pub Vec<u8>);
 impl desert::BinarySerializer for Zipped {
@@ -781,6 +899,9 @@ pub fn builtin_catalog() -> Catalog {
         Streamed<u16>, Streamed<String>, Streamed<(u8, String)>, (Streamed<i64>, u8), Vec<Streamed<u32>>,
         Streamed<Point>, Vec<i8>, [i8; 3], LinkedList<i8>, Vec<u32>, BTreeSet<i8>,
         SliceOf<u16>, SliceOf<String>, SliceOf<u8>, SliceOf<i8>, SliceOf<Point>, StrOf, (StrOf, u8), RcSlice<u32>, RcSlice<u8>,
+        Tagged, Vec<Tagged>, (Tagged, Dedup, Tagged), Tagged2, Vec<Tagged2>, (Tagged2, Tagged, Dedup),
+        Priority, Vec<Priority>, (Priority, u8),
+        [u16; 64], [i8; 127], [(); 65], [String; 70], [bool; 100], Vec<[u16; 64]>,
         Big200, Vec<Big200>, (Big200, u8), Zipped, (Zipped, String), Vec<Zipped>, Archive, Vec<Archive>, (Archive, u8),
         Fragile, (String, Fragile), Vec<Fragile>, Brittle, Vec<Brittle>, (Brittle, Point),
     ];
